@@ -5,22 +5,22 @@ NOTES = ("All checks are generated-input search against explicit oracles (proper
 NOT_APPLICABLE = {}
 CHECKS = {
     "C01": {
-        "text": "Thousands of generated (schema, frame) pairs per run (data first, schema derived with check arguments on/next to the observed boundaries, then repaired to conforming and re-tightened by one mutation) are validated eagerly and lazily and the accept/reject verdict is compared in both directions with an independent pure-Python reference model of the declarative vocabulary; on accept the returned object must equal the input. Exploration: no absence claim beyond the cases generated.",
+        "text": "Thousands of generated (schema, frame) pairs per run (data first, schema derived with check arguments on/next to the observed boundaries, then repaired to conforming and re-tightened by one mutation) are validated eagerly and lazily and the accept/reject verdict is compared in both directions with an independent pure-Python reference model of the declarative vocabulary; on accept the returned object must equal the input. Two further families: string checks whose arguments are enumerated from small grids (every None/0/1 str_length bound, empty prefixes, anchored patterns), and validate -> edit the returned object in place -> validate again, where the second verdict must equal the reference verdict on the edited table. Exploration: no absence claim beyond the cases generated.",
         "design_ref": "DESIGN.md §2 C01, §1.3-1.4",
         "note": "Trusts harness/refmodel.py as the reading of the docs (conventions listed in DESIGN §6); regions where the docs define no semantics are skipped and counted in evidence.",
         "technique": "Hypothesis generators + independent reference model (differential, both directions)",
     },
     "C02": {
-        "text": "Generated multi-violation (schema, frame) pairs: lazy raises iff eager raises, the eager error is among the lazy errors, error_counts equal the per-reason number of collected errors, and the lazy failure_cases table equals the reference model's offending (column, row label, value) multiset plus one scalar entry per frame-level violation. Exploration level.",
+        "text": "Generated multi-violation (schema, frame) pairs: lazy raises iff eager raises, the eager error is among the lazy errors, error_counts equal the per-reason number of collected errors, and the lazy failure_cases table equals the reference model's offending (column, row label, value) multiset plus one scalar entry per frame-level violation; the same oracle on polars DataFrame / LazyFrame (full depth), and lazy-iff-eager + eager-error-among-lazy-errors under SCHEMA_ONLY and DATA_ONLY. Exploration level.",
         "design_ref": "DESIGN.md §2 C02",
-        "note": "Trusts the reference model and the documented layout of SchemaErrors.failure_cases; 5 recorded known findings are excluded by narrow predicates; report exactness is not scored for duplicated labels / overlapping regex columns / checks run on wrong-dtype data.",
+        "note": "Trusts the reference model and the documented layout of SchemaErrors.failure_cases; 6 recorded known findings are excluded by narrow predicates; report exactness is not scored for duplicated labels / overlapping regex columns / checks run on wrong-dtype data.",
         "technique": "Hypothesis generators + reference model, lazy-vs-eager differential",
     },
 
     "C03": {
-        "text": "Conforming generated pairs are de-conformed in ways the parsing options repair (re-encoded cells + coerce at column/schema/index level, null + default, removed column + add_missing_columns, extra columns + strict='filter', tightened row constraint + drop_invalid_rows), 1-3 at once; whenever validate returns, the returned object must pass the same spec with every parsing option off (checked with pandera and, independently, with the reference model on the object read back) and re-validation must return it unchanged. Exploration.",
+        "text": "Conforming generated pairs are de-conformed in ways the parsing options repair (re-encoded cells + coerce at column/schema/index level, null + default, removed column + add_missing_columns, extra columns + strict='filter', tightened row constraint + drop_invalid_rows, a user parser - pure or writing in place, column- or frame-level - and cells it repairs), 1-3 at once; whenever validate returns, the returned object must pass the same spec with every parsing option off (checked with pandera and, independently, with the reference model on the object read back) and re-validation must return it unchanged. Exploration.",
         "design_ref": "DESIGN.md §2 C03",
-        "note": "strip(S) is rebuilt from the JSON spec; strict='filter' is stripped to strict=True (only declared columns may remain); two drop_invalid_rows known findings excluded by narrow predicates. pandas families; polars parse output is covered differentially by C08.",
+        "note": "strip(S) is rebuilt from the JSON spec; strict='filter' is stripped to strict=True (only declared columns may remain); two drop_invalid_rows known findings excluded by narrow predicates. pandas family and a polars family (C08's shared generator + parsing options + regex-declared columns, DataFrame and LazyFrame at full depth); seven drop_invalid_rows / add_missing_columns known findings excluded by narrow predicates.",
         "technique": "Hypothesis generators + fixpoint/round-trip oracle + reference model",
     },
     "C04": {
@@ -36,16 +36,16 @@ CHECKS = {
         "technique": "Hypothesis-generated JSON histories interpreted stepwise (stateful invariant checking) + enumerated subprocess matrix",
     },
     "C06": {
-        "text": "inputs: generated schemas x data x options (lazy, head/tail/sample, drop_invalid_rows, every parsing option, non-dataframe arguments) must end in ok / SchemaError (eager) / SchemaErrors (lazy) / a documented usage error, with schema fingerprint, config and caller data unchanged. faults: every user callback (vectorised/element-wise/groupby check fns at column, index and frame level, parser fns, a custom registered dtype's check/coerce) is a counting wrapper; for EVERY invocation index k of the clean run, eager and lazy, an exception is injected at k and the outcome must stay in the documented channel (a raising check must be reported as CHECK_ERROR) and state must equal the state before. Fault enumeration is exhaustive per generated schema; schemas are sampled.",
+        "text": "inputs: generated schemas x data x options (lazy, head/tail/sample, drop_invalid_rows, every parsing option, standalone Column entry, non-dataframe arguments; a second family on polars DataFrame / LazyFrame at both depths) must end in ok / SchemaError (eager) / SchemaErrors (lazy) / a documented usage error, with schema fingerprint, config and caller data unchanged. faults: every user callback (vectorised/element-wise/groupby check fns at column, index and frame level, parser fns, a custom registered dtype's check/coerce) is a counting wrapper; for EVERY invocation index k of the clean run, eager and lazy, an exception (harness-private, KeyError, ZeroDivisionError, AttributeError, or a user-built pandera SchemaError without reason code) is injected at k and the outcome must stay in the documented channel (a raising check must be reported as CHECK_ERROR) and state must equal the state before. Fault enumeration is exhaustive per generated schema; schemas are sampled.",
         "design_ref": "DESIGN.md §2 C06",
-        "note": "For parser/groupby/dtype callbacks the injected exception itself (or a later user-callback exception caused by it) propagating is accepted; six recorded known findings (drop_invalid_rows family, add_missing coercion, MultiIndex coerce, duplicated labels) are excluded by (exception type, function, trigger) predicates.",
+        "note": "For parser/groupby/dtype callbacks the injected exception itself (or a later user-callback exception caused by it) propagating is accepted; seven recorded known findings (drop_invalid_rows family, add_missing coercion, MultiIndex coerce, duplicated labels, user-built SchemaError from parsers) are excluded by (exception type, function, trigger) predicates.",
         "technique": "Hypothesis generators + every-k fault injection through user callbacks, state-before == state-after invariant",
         "category": "fault_enumeration",
     },
     "C07": {
-        "text": "For 2-3 concurrent pandas/polars validate calls (shared or distinct schemas, cold DataFrameModel, user config_context) every call must return or raise exactly what it does alone, and config plus every schema fingerprint must be unchanged afterwards, under every single-preemption interleaving of each listed workload (exhaustive for that layer at pandera call/return granularity), a two-preemption grid and Hypothesis-generated multi-segment schedules. The harness owns the schedule (sys.settrace parked threads).",
+        "text": "For 2-3 concurrent pandas/polars validate calls (shared or distinct schemas, cold DataFrameModel, user config_context) every call must return or raise exactly what it does alone, and config plus every schema fingerprint must be unchanged afterwards, under every single-preemption interleaving of each listed workload (exhaustive for that layer at pandera call/return granularity), a two-preemption grid, Hypothesis-generated multi-segment schedules, and a cold-process family (one freshly started interpreter per schedule: the scheduled calls are the first validations of the process, so backend registration and lazy imports are inside the explored window). The harness owns the schedule (sys.settrace parked threads).",
         "design_ref": "DESIGN.md §2 C07",
-        "note": "One thread runs at a time; preemption only at pandera call boundaries (not bytecodes); pandas/polars internals and the polars Rust pool are sequentialised; GIL builds only. Watchdog-stopped executions are inconclusive. One recorded known finding (module-global config context).",
+        "note": "One thread runs at a time; the cold family covers single preemptions of two fixed workloads; preemption only at pandera call boundaries (not bytecodes); pandas/polars internals and the polars Rust pool are sequentialised; GIL builds only. Watchdog-stopped executions are inconclusive. One recorded known finding (module-global config context).",
         "technique": "deterministic schedule enumeration + Hypothesis schedules, differential against the solo run",
     },
     "C08": {
@@ -67,7 +67,7 @@ CHECKS = {
         "technique": "Hypothesis generators per dtype, own element classifier as oracle, idempotence round trip",
     },
     "C11": {
-        "text": "Conforming generated pairs re-tightened by 1-3 row-level constraints (nullable, unique with each report_duplicates, column/index/row-wise frame checks, joint uniqueness) with drop_invalid_rows=True on DataFrameSchema, SeriesSchema and standalone Column over unique indexes of every kind: the result must hold exactly the rows (by position) on which the reference model finds no row-level violation, in order, with unchanged values; a non row-attributable violation must still raise. Exploration.",
+        "text": "Conforming generated pairs re-tightened by 1-3 row-level constraints (nullable, unique with each report_duplicates, column/index/row-wise frame checks, joint uniqueness) with drop_invalid_rows=True on DataFrameSchema, SeriesSchema and standalone Column over unique indexes of every kind (pandas) and on polars DataFrame / LazyFrame: the result must hold exactly the rows (by position) on which the reference model finds no row-level violation, in order, with unchanged values; a non row-attributable violation must still raise. Exploration.",
         "design_ref": "DESIGN.md §2 C11",
         "note": "Unique index only (documented restriction); aggregate checks (unique_values_eq) skipped; four recorded known findings (index positions, non-tabular failure cases, null duplicates, SeriesSchema index).",
         "technique": "Hypothesis generators + reference model (set of bad rows)",
@@ -109,15 +109,15 @@ CHECKS = {
         "technique": "Hypothesis-generated programs (source exec'd) + differential reference binding oracle",
     },
     "C19": {
-        "text": "Hypothesis-generated data (nulls, empty data, default/unique/duplicated labels), predicates from a total family in scalar and vectorised form, and option values; each case runs 4-9 option variants of the same check (element_wise vs vectorised vs s.map, ignore_na, n_failure_cases, raise_warning, groupby str/list/callable with groups, the seven aliases vs canonical constructors); verdict, failure cases and what the function was shown are compared with a pure-Python reference through Check(...)(data) and schema.validate, on pandas and the polars subset.",
+        "text": "Hypothesis-generated data (nulls, empty data, default/unique/duplicated labels), predicates from a total family in scalar and vectorised form, and option values; each case runs 4-9 option variants of the same check (element_wise vs vectorised vs s.map, ignore_na, n_failure_cases, raise_warning, groupby str/list/callable with groups, the seven aliases vs canonical constructors; ignore_na=True on pd.NA-holding extension dtypes); verdict, failure cases and what the function was shown are compared with a pure-Python reference through Check(...)(data) and schema.validate, on pandas and the polars subset.",
         "design_ref": "DESIGN.md §2 C19",
         "note": "ignore_na semantics from the Check docstring and docs/source/checks.md; n_failure_cases: truncation only; five recorded known findings (frame/groupby ignore_na, parser+groupby, duplicate-index reshape, polars ignore_na=True on null-false expressions).",
         "technique": "Hypothesis metamorphic option variants + pure-Python reference model",
     },
     "C20": {
-        "text": "Generated (schema, frame) pairs with non-unique / non-default index labels x head/tail/sample/random_state (incl. 0, overlapping, aimed just inside/outside a violating row): the verdict must equal the reference verdict with row-attributable constraints evaluated on the independently computed selected positions and frame-level constraints on the whole table; the call returns all of D; same random_state => same outcome and report; head=len(D) == no option. Exploration.",
+        "text": "Generated (schema, frame) pairs with non-unique / non-default index labels x head/tail/sample/random_state (incl. 0, overlapping, aimed just inside/outside a violating row): the verdict must equal the reference verdict with row-attributable constraints evaluated on the independently computed selected positions and frame-level constraints on the whole table; the call returns all of D; same random_state => same outcome and report; head=len(D) == no option; DataFrameSchema / SeriesSchema / standalone Column on pandas, head/tail on polars DataFrame / LazyFrame. Exploration.",
         "design_ref": "DESIGN.md §2 C20",
-        "note": "Sample positions obtained by sampling a row-id frame with the same random_state (pandas determinism); one recorded known finding (pandas de-duplicates selected rows by label). pandas family.",
+        "note": "Sample positions obtained by sampling a row-id frame with the same random_state (pandas determinism); one recorded known finding (pandas de-duplicates selected rows by label).",
         "technique": "Hypothesis generators + reference model on independently computed row selection (metamorphic)",
     },
     "C18": {
